@@ -176,6 +176,10 @@ def fixed_cases():
     out.append((diag([F(1, 4), F(1, 2)]), F(65536)))                 # 65536, +1/2, +1/4, +3/4
     out.append((diag([F(-65536), F(1, 4), F(-1, 4)]), Z))            # optimum -65536.25 next to -65536
     out.append(([[F(1 << 30), F(1, 8)], [Z, F(-(1 << 30))]], F(1, 8)))
+    # two different problems whose CSR forms share shape, row pointers and stored values but not the column indices,
+    # reported one after the other in the same process (statistics must be those of the matrix at hand)
+    out.append(([[F(-1), F(2), Z], [Z, F(-1), Z], [Z, Z, Z]], Z))     # -x0 - x1 + 2 x0 x1
+    out.append(([[Z, F(-1), F(2)], [Z, Z, F(-1)], [Z, Z, Z]], Z))     # -x0 x1 + 2 x0 x2 - x1 x2
     return out
 
 
